@@ -524,6 +524,11 @@ structure SchemaWF (S : VSchema) : Prop where
   fieldsOutput : ∀ td ∈ S.base.types, ∀ f ∈ td.fields, kindIs S f.ty.base .input = false
   /-- the root types the schema names are composite types of the schema -/
   rootsComposite : ∀ (t : OpType) (r : String), rootOf S t = some r → S.isComposite r = true
+  /-- the `is_subscription` flags of the registry mark exactly the type `subscription_type` names
+      (`visit_selection` goes by the flag, the specification by the operation type; used by
+      `c09_typename_at_subscription_root`, not by the equivalence for the repaired pipeline, which
+      walks `__typename` like any field and enforces 5.2.3.1 by the reference rule) -/
+  flags : flagWF S = true
 
 /-- no sub-selection below `__typename` -/
 def docOK (d : Doc) : Bool :=
